@@ -43,6 +43,9 @@ structure Session (α : Type) where
   /-- `Repl.last_result_type`: the static type the next line's parameter is compiled against (a token;
       the model never looks inside a type) -/
   lastResultTy : String := "[]"
+  /-- `Repl.module_cache` (the ids of the cached modules; the cached values themselves are C10's
+      subject). Compilation works on a per-line **clone** that is committed only on success. -/
+  moduleCache : List String := []
   deriving Repr
 
 variable {α : Type}
@@ -77,7 +80,8 @@ def compact (s : Session α) : Session α :=
   { bindings := s.bindings.map (fun p => (p.1, (newIndex keep p.2).getD p.2)),
     locals := (keptValues s.locals keep).getD s.locals,
     lastResult := s.lastResult,
-    lastResultTy := s.lastResultTy }
+    lastResultTy := s.lastResultTy,
+    moduleCache := s.moduleCache }
 
 /-- Value of a variable as `request_variable` reads it: binding index, then that local. -/
 def lookup (s : Session α) (x : String) : Option α :=
@@ -102,15 +106,19 @@ structure LineEffect (α : Type) where
   result : α
   /-- the line's static result type (`Compiled.result_type`) -/
   resultTy : String := "[]"
+  /-- modules the line imported (entries its compilation added to the cloned module cache) -/
+  imports : List String := []
 
 /-- What can happen to a submitted line. -/
 inductive LineOutcome (α : Type) where
   /-- `parse` failed: `evaluate` returns before touching anything -/
   | parseError
-  /-- `Compiler::compile` failed: `compact` already ran, nothing else is committed -/
-  | compileError
-  /-- type definitions only: bindings committed, nothing runs -/
-  | noCode (bindings : List (String × Nat))
+  /-- `Compiler::compile` failed: `compact` already ran, nothing else is committed — in particular not
+      the modules the line had `attempted` to import before the error (they live in the discarded clone
+      of the module cache, with ids of the discarded clone of the program) -/
+  | compileError (attempted : List String)
+  /-- type definitions / imports only: bindings and module cache committed, nothing runs -/
+  | noCode (bindings : List (String × Nat)) (imports : List String)
   /-- compiled, resumed, ran to a value, result delivered (with the orphan release) -/
   | ran (eff : LineEffect α)
 
@@ -120,21 +128,32 @@ inductive LineOutcome (α : Type) where
     stored result and its type**: nothing is resumed, so the value that will flow into the next line is
     still the old one and must still be typed as such (repl.rs since 7b757f2: `last_result_type` is
     assigned only `if !instructions.is_empty()`). -/
+def addModules (cache imports : List String) : List String :=
+  imports.foldl (fun c m => if c.contains m then c else c ++ [m]) cache
+
 def runLine (nil : α) (s : Session α) : LineOutcome α → Session α
   | .parseError => s
-  | .compileError => compact s
-  | .noCode b => { compact s with bindings := b }
+  | .compileError _ => compact s
+  | .noCode b im => { compact s with bindings := b, moduleCache := addModules s.moduleCache im }
   | .ran eff =>
     let c := compact s
     { bindings := eff.bindings,
       locals := releaseOrphans nil (keepIndices eff.bindings) (c.locals ++ eff.appended),
       lastResult := eff.result,
-      lastResultTy := eff.resultTy }
+      lastResultTy := eff.resultTy,
+      moduleCache := addModules s.moduleCache eff.imports }
 
 /-- The rule before 7b757f2 (finding F-C11-1), kept as a witness: every successfully compiled line —
     also a code-less one, whose `compile_top_level` result type is nil — overwrote `last_result_type`. -/
 def runLineOld (nil : α) (s : Session α) : LineOutcome α → Session α
-  | .noCode b => { compact s with bindings := b, lastResultTy := "[]" }
+  | .noCode b im => { compact s with bindings := b, lastResultTy := "[]", moduleCache := addModules s.moduleCache im }
+  | o => runLine nil s o
+
+/-- A rule that keeps the module cache of a line that failed to compile (the shape of the seeded
+    changes C11-1 / C10-3 / C07-3: compile into `self.module_cache`, or commit the clone on failure),
+    kept as a witness: the rejected line is then no longer a no-op. -/
+def runLineLeaky (nil : α) (s : Session α) : LineOutcome α → Session α
+  | .compileError att => { compact s with moduleCache := addModules s.moduleCache att }
   | o => runLine nil s o
 
 /-- The flowing value is typed by the recorded type (`hasTy` is whatever typing judgement one likes). -/
